@@ -23,6 +23,8 @@ pub fn check_case(_ctx: &Ctx, case: &Case, t: &mut Tally) {
     }
     let text = spec.to_text();
     let n = spec.n;
+    // annual output shares (steps without output) are f32 sums over n steps
+    let rt = 4e-6 + 1.5e-7 * n as f64;
     let wit = |extra: Value| {
         let mut w = case.witness();
         w["observed"] = extra;
@@ -83,7 +85,7 @@ pub fn check_case(_ctx: &Ctx, case: &Case, t: &mut Tally) {
         for k in 0..n {
             t.count("system_steps_checked");
             let sum: f64 = g.map(|m| m.values().map(|v| v[k]).sum()).unwrap_or(0.0);
-            if (sum - w[k]).abs() > 4e-6 * w[k].abs() + 1e-7 {
+            if (sum - w[k]).abs() > rt * w[k].abs() + 1e-7 {
                 t.violation(
                     "C06.aux_not_conserved",
                     format!("system {id} step {k}: declared auxiliary energy {} but the assigned components add up to {sum}", w[k]),
@@ -142,7 +144,7 @@ pub fn check_case(_ctx: &Ctx, case: &Case, t: &mut Tally) {
                     let w = want.get(srv).map(|v| v[k]).unwrap_or(0.0);
                     let x = g.get(srv).map(|v| v[k]).unwrap_or(0.0);
                     let tot = decl[id][k];
-                    if (w - x).abs() > 4e-6 * tot.abs() + 1e-7 {
+                    if (w - x).abs() > rt * tot.abs() + 1e-7 {
                         t.violation(
                             if generated { "C06.share_not_proportional_to_output" } else { "C06.single_service_assignment" },
                             format!("system {id} service {srv} step {k}: assigned {x}, expected {w} of the {tot} declared"),
@@ -166,7 +168,7 @@ pub fn check_case(_ctx: &Ctx, case: &Case, t: &mut Tally) {
                     t.violation("C06.aux_not_in_balance", format!("{decl_an} kWh of auxiliary electricity declared but the result has no electricity balance"), || wit(json!({"only_electricity": only_el})));
                 }
             } else if let Some(Ok(rf)) = ref_eval_spec(spec, &fac, case.k, case.area, case.lm) {
-                let tol = Tol { atol: 1e-6, rtol: 6e-6 };
+                let tol = Tol { atol: 1e-6, rtol: 2e-6 + rt };
                 let zero_ids: Vec<i32> = exp.as_ref().map(|e| e.aux_zero_out_steps.keys().copied().collect()).unwrap_or_default();
                 let sel = |p: &str| -> bool {
                     if !p.starts_with("balance_cr.ELECTRICIDAD.used.") {
